@@ -94,7 +94,13 @@ def scratch(worker, m):
             pos = src.find(line, pos + 1)
         if not cands:
             raise RuntimeError("the mutated line was changed by a later repair")
-        pos = min(cands, key=lambda x: abs(x - ls))
+        # the k-th occurrence of that line in the base is the k-th in the current file when both have
+        # as many (the repairs inserted lines, they did not duplicate these); otherwise the nearest
+        bc, bp = [], base.find(line)
+        while bp >= 0:
+            bc.append(bp)
+            bp = base.find(line, bp + 1)
+        pos = cands[bc.index(ls)] if len(bc) == len(cands) and ls in bc else min(cands, key=lambda x: abs(x - ls))
         start, end = pos + rel, pos + rel + (m["end"] - m["start"])
     assert src[start:end].decode() == m["old"], "mutant list is stale"
     open(p, "wb").write(src[:start] + m["new"].encode() + src[end:])
